@@ -35,18 +35,20 @@ HETEROCYCLES = [
     'c1ccc2c(c1)c1ccccc21', 'B1C=CC=CC=C1', 'c1cc[n-]c1', 'c1ccc2[n-]ccc2c1', 'c1cc[se]cn1', 'c1cnc2ccc3ncccc3c2c1', 'c1ccc2c(c1)nc1ccccc1n2',
     'CN1C=CC2=NC=CC2=C1', 'CN1C=CC2=CC=NC2=C1', 'CN1C=CC=C2N=CC=C12', 'CN1C=CC2=C3C=CC=CC3=NC2=C1', 'C1=CC=CC=C1N1C=CC2=NC=CC2=C1', 'CCN1C=CC2=NC=CC2=C1',
     'N1C=CC2=CC=NC2=C1', 'N1C=CC=C2N=CC=C12', 'O=C1C=CNC=C1', 'O=C1C=CN(C)C=C1', 'CN1C=CC(=O)C=C1', 'CN1C=CC=CC1=O',
+    'c1ccc2c(c1)sc1nccn12', 'c1ccc2c(c1)oc1nccn12', 'c1ccc2c(c1)[nH]c1nccn12', 'c1csc2nccn12', 'c1cn2ccsc2n1', 'c1cn2ccoc2n1', 'Cc1cn2c(n1)sc1ccccc12',
+    'O=c1ccc(=O)cc1', 'O=c1cc[nH]cc1', 'Cn1c(=O)c2c(ncn2C)n(C)c1=O', 'O=c1ccc2ccccc2o1', 'S=c1cc[nH]cc1', 'O=c1[nH]c(=O)c2[nH]cnc2[nH]1', 'O=c1nc[nH]c2ccccc12',
     'Oc1nc2ccccc2nc1O', 'Oc1ccnc(O)n1', 'O=c1cc[nH]c(=O)[nH]1', 'c1ccc2[nH]nnc2c1', 'c1ccc2nsnc2c1', 'c1ccc2nonc2c1', '[nH]1cccc1-c1ccccn1',
 ]
 CONFIG = {
     'quick': {'shards': 16, 'budget_s': 150, 'n_corpus': 1600, 'k_renum': 2, 'max_forms': 40,
               'floors': {'evaluations': 4000, 'distinct_nontrivial': 500, 'molecules': 800, 'kekule-forms.enumerated': 2500,
                          'renumbered.compared': 1500, 'clause.idempotence': 800, 'aromatic-spellings.compared': 2000,
-                         'protonated.variants': 300, 'protonated.variants-two-or-more': 60, 'raw-kekule-inputs.thiele-compared': 150,
+                         'protonated.variants': 300, 'protonated.variants-two-or-more': 60, 'raw-kekule-inputs.thiele-compared': 150, 'raw-aromatic-inputs.forms-checked': 1500,
                          'n-substituted.variants': 100}},
     'thorough': {'shards': 16, 'budget_s': 1800, 'n_corpus': 4200, 'k_renum': 16, 'max_forms': 400,
                  'floors': {'evaluations': 50000, 'distinct_nontrivial': 2500, 'molecules': 4000, 'kekule-forms.enumerated': 15000,
                             'renumbered.compared': 25000, 'clause.idempotence': 4000, 'aromatic-spellings.compared': 8000,
-                            'protonated.variants': 1000, 'protonated.variants-two-or-more': 200, 'raw-kekule-inputs.thiele-compared': 600,
+                            'protonated.variants': 1000, 'protonated.variants-two-or-more': 200, 'raw-kekule-inputs.thiele-compared': 250, 'raw-aromatic-inputs.forms-checked': 8000,
                             'n-substituted.variants': 400}},
 }
 
@@ -361,6 +363,51 @@ def raw_thiele(ctx, src):
                       'aromatic form %s of %s as written: %r' % (t, src, e), w)
 
 
+def raw_enumerate(ctx, src, cfg):
+    """enumerate_kekule() on the molecule exactly as parsed from aromatic notation (hydrogens of bare aromatic atoms still open):
+    every form is a complete molecule - hydrogens known, orders 1-3, no valence error - with the heavy atoms and charge kekule() arrives at"""
+    try:
+        raw = smiles(src)
+    except Exception:
+        return
+    if not isinstance(raw, MoleculeContainer) or not any(b.order == 4 for *_, b in raw.bonds()):
+        return
+    ref = raw.copy()
+    G._fix_slots(ref)
+    try:
+        ref.kekule()
+    except Exception:
+        return
+    if ref.check_valence() or has_unsaturated_four_ring(ref):
+        return
+    want = (dict(ref.brutto), sum(a.charge for _, a in ref.atoms()))
+    w = {'smiles': src}
+    try:
+        forms = []
+        for f in raw.enumerate_kekule():
+            forms.append(f)
+            if len(forms) >= min(cfg['max_forms'], 12):
+                break
+    except Exception as e:
+        ctx.violation('enumerate_kekule-raises/%s%s' % (type(e).__name__, '/n-metalated-azole' if G.n_metalated_azole(raw) else ''),
+                      '%s as parsed: %r' % (src, e), w)
+        return
+    for f in forms:
+        ctx.count('raw-aromatic-inputs.forms-checked')
+        ctx.evaluations += 1
+        if any(a.implicit_hydrogens is None for _, a in f.atoms()):
+            bad = [n for n, a in f.atoms() if a.implicit_hydrogens is None]
+            ctx.violation('enumerated-form-invalid/hydrogens-undefined', '%s as parsed: form %s leaves atoms %s without a hydrogen count' % (src, f, bad[:4]), w)
+            return
+        if any(b.order not in (1, 2, 3, 8) for *_, b in f.bonds()) or f.check_valence():
+            ctx.violation('enumerated-form-invalid', '%s as parsed: %s' % (src, f), w)
+            return
+        # (a bare aromatic n may be read as N or N-H: the forms of an ambiguous spelling need not share one formula, only the heavy atoms)
+        if {k: v for k, v in f.brutto.items() if k != 'H'} != {k: v for k, v in want[0].items() if k != 'H'} or sum(a.charge for _, a in f.atoms()) != want[1]:
+            ctx.violation('enumerated-form-changes-molecule', '%s as parsed: form %s has %s, kekule() gives %s' % (src, f, dict(f.brutto), want[0]), w)
+            return
+
+
 def n_substituted(ctx, m, src, cfg, rng):
     """ring N-H replaced by N-methyl / N-ethyl / N-phenyl through the editing API: the nitrogen can no longer donate a hydrogen to
     the tautomer fix, the conversions must leave it alone"""
@@ -410,6 +457,7 @@ def worker(ctx):
             ctx.note('time budget reached')
             break
         raw_thiele(ctx, s)
+        raw_enumerate(ctx, s, cfg)
         try:
             m = smiles(s)
             if not isinstance(m, MoleculeContainer):
